@@ -3,12 +3,16 @@ package group
 import (
 	"fmt"
 	"net"
+	"strconv"
 	"sync"
 	"sync/atomic"
 
 	"github.com/fatedier/frp/pkg/util/verifhook"
 	"github.com/fatedier/frp/pkg/util/vhost"
 )
+
+// httpGroupJoinSeq numbers the joins of all http groups (see HTTPGroup.endpoints).
+var httpGroupJoinSeq uint64
 
 type HTTPGroupController struct {
 	// groups indexed by group name
@@ -73,6 +77,10 @@ type HTTPGroup struct {
 
 	// CreateConnFuncs indexed by proxy name
 	createFuncs map[string]vhost.CreateConnFunc
+	// endpoint id of each member: proxy name + "#" + join number. The id goes into the connection pool key of
+	// the reverse proxy, so a member that joins later under the name of a former one (same or new group on the
+	// same route) never reuses idle connections that lead to the former member's backend.
+	endpoints map[string]string
 	pxyNames    []string
 	index       uint64
 	ctl         *HTTPGroupController
@@ -82,6 +90,7 @@ type HTTPGroup struct {
 func NewHTTPGroup(ctl *HTTPGroupController) *HTTPGroup {
 	return &HTTPGroup{
 		createFuncs: make(map[string]vhost.CreateConnFunc),
+		endpoints:   make(map[string]string),
 		pxyNames:    make([]string, 0),
 		ctl:         ctl,
 	}
@@ -130,6 +139,7 @@ func (g *HTTPGroup) Register(
 		return
 	}
 	g.createFuncs[proxyName] = routeConfig.CreateConnFn
+	g.endpoints[proxyName] = proxyName + "#" + strconv.FormatUint(atomic.AddUint64(&httpGroupJoinSeq, 1), 10)
 	g.pxyNames = append(g.pxyNames, proxyName)
 	return nil
 }
@@ -138,6 +148,7 @@ func (g *HTTPGroup) UnRegister(proxyName string) (isEmpty bool) {
 	g.mu.Lock()
 	defer g.mu.Unlock()
 	delete(g.createFuncs, proxyName)
+	delete(g.endpoints, proxyName)
 	for i, name := range g.pxyNames {
 		if name == proxyName {
 			g.pxyNames = append(g.pxyNames[:i], g.pxyNames[i+1:]...)
@@ -185,7 +196,7 @@ func (g *HTTPGroup) chooseEndpoint() (string, error) {
 	location := g.location
 	routeByHTTPUser := g.routeByHTTPUser
 	if len(g.pxyNames) > 0 {
-		name = g.pxyNames[int(newIndex)%len(g.pxyNames)]
+		name = g.endpoints[g.pxyNames[int(newIndex)%len(g.pxyNames)]]
 	}
 	g.mu.RUnlock()
 
@@ -199,7 +210,11 @@ func (g *HTTPGroup) chooseEndpoint() (string, error) {
 func (g *HTTPGroup) createConnByEndpoint(endpoint, remoteAddr string) (net.Conn, error) {
 	var f vhost.CreateConnFunc
 	g.mu.RLock()
-	f = g.createFuncs[endpoint]
+	for name, id := range g.endpoints {
+		if id == endpoint {
+			f = g.createFuncs[name]
+		}
+	}
 	g.mu.RUnlock()
 
 	if f == nil {
